@@ -61,8 +61,21 @@ fn guid_start_from_certificate(identity_cert: &Certificate) -> SecurityResult<[u
 
 fn validate_remote_guid(
   remote_guid: GUID,
+  expected_guid_prefix: GuidPrefix,
   remote_identity_cert: &Certificate,
 ) -> SecurityResult<()> {
+  // The participant data inside the handshake message has to be that of the
+  // participant this handshake was started with (validate_remote_identity).
+  // Otherwise any holder of a valid identity certificate could complete the
+  // handshake in the name of another participant's GUID.
+  if remote_guid.prefix != expected_guid_prefix {
+    return Err(create_security_error_and_log!(
+      "GUID prefix {:?} in the handshake message is not that of the remote participant {:?}",
+      remote_guid.prefix,
+      expected_guid_prefix
+    ));
+  }
+
   let actual_guid_start = &remote_guid.prefix.as_ref()[0..6];
   let expected_guid_start = guid_start_from_certificate(remote_identity_cert).map_err(|e| {
     create_security_error_and_log!("Could not determine the expected GUID start: {e}")
@@ -241,6 +254,7 @@ impl Authentication for AuthenticationBuiltin {
     let random_bytes3 = self.generate_random_32_bytes()?;
 
     let self_remote_info = RemoteParticipantInfo {
+      guid_prefix: adjusted_guid.prefix,
       identity_certificate_opt: None,
       signed_permissions_xml_opt: None,
       handshake: HandshakeInfo {
@@ -376,7 +390,7 @@ impl Authentication for AuthenticationBuiltin {
     let remote_identity_handle = self.get_new_identity_handle();
 
     let remote_info = RemoteParticipantInfo {
-      //guid_prefix: remote_participant_guidp,
+      guid_prefix: remote_participant_guidp,
       //identity_token: remote_identity_token,
       identity_certificate_opt: None,   // Not yet available
       signed_permissions_xml_opt: None, // Not yet available
@@ -547,7 +561,12 @@ impl Authentication for AuthenticationBuiltin {
         )
       })?;
 
-    validate_remote_guid(remote_pdata.participant_guid, &cert1).map_err(|e| {
+    validate_remote_guid(
+      remote_pdata.participant_guid,
+      remote_info.guid_prefix,
+      &cert1,
+    )
+    .map_err(|e| {
       create_security_error_and_log!("Remote GUID does not comply with the spec: {e}")
     })?;
 
@@ -695,23 +714,24 @@ impl Authentication for AuthenticationBuiltin {
   ) -> SecurityResult<(ValidationOutcome, Option<HandshakeMessageToken>)> {
     // Check what is the handshake state
     let remote_identity_handle = *self.handshake_handle_to_identity_handle(&handshake_handle)?;
-    let remote_info = self.get_remote_participant_info_mutable(&remote_identity_handle)?;
-
-    // This trickery is needed because BuiltinHandshakeState contains
-    // key pairs, which cannot be cloned. We just move the "state" out and leave
-    // a dummy value behind. At the end of this function we will overwrite the
-    // dummy.
-    let mut state = BuiltinHandshakeState::PendingRequestSend; // dummy to leave behind
-    std::mem::swap(&mut remote_info.handshake.state, &mut state);
+    let remote_info = self.get_remote_participant_info(&remote_identity_handle)?;
 
     let local_info = self.get_local_participant_info()?;
 
-    match state {
+    // BuiltinHandshakeState contains key pairs, which cannot be cloned, so the
+    // state is inspected through a reference while the incoming message is
+    // validated. The key pair is moved out (leaving a dummy value behind for a
+    // moment) only after every check has passed. This way an invalid message
+    // returns an error and leaves the handshake state exactly as it was, so
+    // the genuine message can still be processed afterwards.
+    match &remote_info.handshake.state {
       BuiltinHandshakeState::PendingReplyMessage {
         dh1,
         challenge1,
         hash_c1,
       } => {
+        let (challenge1, hash_c1) = (challenge1.clone(), hash_c1.clone());
+
         // We are the initiator, and expect a reply.
         // Result is that we produce a MassageToken (i.e. send the final message)
         // and the handshake results (shared secret)
@@ -740,7 +760,12 @@ impl Authentication for AuthenticationBuiltin {
             )
           })?;
 
-        validate_remote_guid(remote_pdata.participant_guid, &cert2).map_err(|e| {
+        validate_remote_guid(
+          remote_pdata.participant_guid,
+          remote_info.guid_prefix,
+          &cert2,
+        )
+        .map_err(|e| {
           create_security_error_and_log!("Remote GUID does not comply with the spec: {e}")
         })?;
 
@@ -749,6 +774,17 @@ impl Authentication for AuthenticationBuiltin {
         if challenge1 != reply.challenge1 {
           return Err(create_security_error_and_log!(
             "Challenge 1 mismatch on authentication reply"
+          ));
+        }
+
+        // The reply must echo the DH1 public key that we sent in the request. The
+        // signature verified below covers reply.dh1, i.e. the key the remote
+        // received: without this check a request whose dh1 was replaced in
+        // transit would still lead to a completed authentication on our side.
+        let dh1_public_key = dh1.public_key_bytes()?;
+        if reply.dh1 != dh1_public_key {
+          return Err(create_security_error_and_log!(
+            "Diffie-Hellman parameter DH1 mismatch on authentication reply"
           ));
         }
 
@@ -835,11 +871,6 @@ impl Authentication for AuthenticationBuiltin {
           ));
         }
 
-        let dh1_public_key = dh1.public_key_bytes()?;
-
-        // Compute the shared secret
-        let shared_secret = dh1.compute_shared_secret(reply.dh2.clone())?;
-
         // Create signature for final message:
         // Sign( Hash(C1) | Challenge1 | DH1 | Challenge2 | DH2 | Hash(C2) ), see Table
         // 51
@@ -880,7 +911,7 @@ impl Authentication for AuthenticationBuiltin {
           hash_c1: Some(Bytes::copy_from_slice(hash_c1.as_ref())), // spec says this is optional
           dh1: Some(dh1_public_key), // spec says this is optional
           hash_c2: Some(Bytes::copy_from_slice(c2_hash_recomputed.as_ref())), // also optional
-          dh2: Some(reply.dh2), // also optional
+          dh2: Some(reply.dh2.clone()), // also optional
 
           // Only the following three parts are mandatory
           challenge1: Some(Bytes::copy_from_slice(reply.challenge1.as_ref())),
@@ -888,8 +919,24 @@ impl Authentication for AuthenticationBuiltin {
           signature: Some(final_contents_signature),
         };
 
-        // Change handshake state to Completed & save the final message token
+        // All checks have passed: take the key pair out of the stored state and
+        // compute the shared secret
         let remote_info = self.get_remote_participant_info_mutable(&remote_identity_handle)?;
+        let dh1 = match std::mem::replace(
+          &mut remote_info.handshake.state,
+          BuiltinHandshakeState::PendingRequestSend, // dummy, overwritten below
+        ) {
+          BuiltinHandshakeState::PendingReplyMessage { dh1, .. } => dh1,
+          other_state => {
+            remote_info.handshake.state = other_state;
+            return Err(create_security_error_and_log!(
+              "Handshake state changed unexpectedly"
+            ));
+          }
+        };
+        let shared_secret = dh1.compute_shared_secret(reply.dh2)?;
+
+        // Change handshake state to Completed & save the final message token
         remote_info.handshake.state = BuiltinHandshakeState::CompletedWithFinalMessageSent {
           challenge1,
           challenge2: reply.challenge2,
@@ -915,6 +962,14 @@ impl Authentication for AuthenticationBuiltin {
         challenge2,
         remote_id_certificate,
       } => {
+        let (hash_c1, hash_c2, dh1_public, challenge1, challenge2) = (
+          hash_c1.clone(),
+          hash_c2.clone(),
+          dh1_public.clone(),
+          challenge1.clone(),
+          challenge2.clone(),
+        );
+
         // We are the responder, and expect the final message.
         // Result is that we do not produce a MassageToken, since this was the final
         // message, but we compute the handshake results (shared secret)
@@ -1007,11 +1062,24 @@ impl Authentication for AuthenticationBuiltin {
             )
           })?;
 
-        // Compute the shared secret
+        // All checks have passed: take the key pair out of the stored state and
+        // compute the shared secret
+        let remote_info = self.get_remote_participant_info_mutable(&remote_identity_handle)?;
+        let dh2 = match std::mem::replace(
+          &mut remote_info.handshake.state,
+          BuiltinHandshakeState::PendingRequestSend, // dummy, overwritten below
+        ) {
+          BuiltinHandshakeState::PendingFinalMessage { dh2, .. } => dh2,
+          other_state => {
+            remote_info.handshake.state = other_state;
+            return Err(create_security_error_and_log!(
+              "Handshake state changed unexpectedly"
+            ));
+          }
+        };
         let shared_secret = dh2.compute_shared_secret(dh1_public)?;
 
         // Change handshake state to Completed
-        let remote_info = self.get_remote_participant_info_mutable(&remote_identity_handle)?;
         remote_info.handshake.state = BuiltinHandshakeState::CompletedWithFinalMessageReceived {
           challenge1,
           challenge2,
@@ -1122,7 +1190,7 @@ iHhbVPRB9Uxts9CwglxYgZoUdGUAxreYIIaLO4yLqw==
     let invalid_guid = GUID::dummy_test_guid(EntityKind::PARTICIPANT_BUILT_IN);
     let some_certificate = Certificate::from_pem(cert_pem).unwrap();
 
-    let validation_res = validate_remote_guid(invalid_guid, &some_certificate);
+    let validation_res = validate_remote_guid(invalid_guid, invalid_guid.prefix, &some_certificate);
 
     assert!(
       validation_res.is_err(),
